@@ -13,9 +13,10 @@ import (
 type Mutant struct {
 	Name     string
 	Property string
-	Expect   []string // rule names, any of which must report a violation
+	Expect   []string // rule names, any of which must report a violation; empty for a benign edit
 	Edits    []Edit
 	Note     string
+	Benign   bool // behaviour-preserving edit: no rule of the property may report anything
 }
 
 // Edit replaces the single occurrence of Old in File by New.
@@ -28,6 +29,14 @@ var mutants []*Mutant
 
 func mutant(prop, name string, expect string, file, old, new string) *Mutant {
 	m := &Mutant{Name: prop + "/" + name, Property: prop, Expect: strings.Split(expect, ","), Edits: []Edit{{file, old, new}}}
+	mutants = append(mutants, m)
+	return m
+}
+
+// benign registers a behaviour-preserving edit (a refactoring a maintainer
+// might make): the self-test requires every rule of the property to stay silent.
+func benign(prop, name, file, old, new string) *Mutant {
+	m := &Mutant{Name: prop + "/benign-" + name, Property: prop, Edits: []Edit{{file, old, new}}, Benign: true}
 	mutants = append(mutants, m)
 	return m
 }
@@ -105,6 +114,19 @@ func runSelfTest(repo, known, prop string) *selfTestResult {
 		case o.Err != "":
 			st.Failures = append(st.Failures, fmt.Sprintf("SELFTEST-BROKEN %s: mutant could not be analysed: %s", m.Name, o.Err))
 			st.Lines = append(st.Lines, st.Failures[len(st.Failures)-1])
+		case m.Benign:
+			if len(o.Result.Violations) == 0 {
+				killed++
+				st.Lines = append(st.Lines, fmt.Sprintf("SELFTEST-SILENT %s (behaviour-preserving edit, no report)", m.Name))
+				detail = append(detail, m.Name+": silent, as required for a behaviour-preserving edit")
+			} else {
+				var got []string
+				for _, v := range o.Result.Violations {
+					got = append(got, v.Rule+" "+v.Construct)
+				}
+				st.Failures = append(st.Failures, fmt.Sprintf("SELFTEST-FALSE-ALARM %s: a behaviour-preserving edit is reported by %v", m.Name, got))
+				st.Lines = append(st.Lines, st.Failures[len(st.Failures)-1])
+			}
 		default:
 			hit := ""
 			for _, v := range o.Result.Violations {
